@@ -114,6 +114,9 @@ def harness_ninja(harnesses):
     L.append("rule link_schedn\n  command = clang++ -g $in %s/libgalois/libgalois_shmem.a -lrapidcheck -lnuma -lpthread -ldl -o $out\n" % variant_dir("schedn"))
     L.append("rule cxx_fuzz\n  command = clang++ -std=c++17 %s -march=native %s $defs -MD -MF $out.d -c $in -o $out\n  depfile = $out.d\n  deps = gcc\n"
              % (FUZZ_FLAGS.replace("fuzzer-no-link", "fuzzer"), _inc("fuzz", DIST_INCS)))
+    L.append("rule cxx_asan\n  command = clang++ -std=c++17 %s -march=native %s $defs -MD -MF $out.d -c $in -o $out\n  depfile = $out.d\n  deps = gcc\n"
+             % (FUZZ_FLAGS, _inc("fuzz", DIST_INCS)))
+    L.append("rule link_asan\n  command = clang++ -g -fsanitize=address,undefined $in gsched_stub.o %s/libgalois/libgalois_shmem.a $libs -lrapidcheck -lnuma -lpthread -ldl -o $out\n" % variant_dir("fuzz"))
     L.append("rule cxx_native\n  command = g++ -std=c++17 %s -UNDEBUG -march=native %s $defs -MD -MF $out.d -c $in -o $out\n  depfile = $out.d\n  deps = gcc\n"
              % (NATIVE_FLAGS, _inc("native", DIST_INCS)))
     L.append("rule cxx_gsched\n  command = g++ -std=c++17 -O2 -g -I%s/engine/gsched -MD -MF $out.d -c $in -o $out\n  depfile = $out.d\n  deps = gcc\n" % VERIF)
@@ -135,8 +138,10 @@ def harness_ninja(harnesses):
             L.append("build %s: link_sched %s gsched.o | %s/libgalois/libgalois_shmem.a\n" % (h["name"], " ".join(objs), variant_dir("sched")))
         elif kind == "schedn":
             L.append("build %s: link_schedn %s gsched.o | %s/libgalois/libgalois_shmem.a\n" % (h["name"], " ".join(objs), variant_dir("schedn")))
+        elif kind == "asan":
+            L.append("build %s: link_asan %s | gsched_stub.o %s/libgalois/libgalois_shmem.a\n  libs = %s\n" % (h["name"], " ".join(objs), variant_dir("fuzz"), libs))
         elif kind == "fuzz":
-            L.append("build %s: link_fuzz %s | %s/libgalois/libgalois_shmem.a\n  libs = %s\n" % (h["name"], " ".join(objs), variant_dir("fuzz"), libs))
+            L.append("build %s: link_fuzz %s gsched_stub.o | %s/libgalois/libgalois_shmem.a\n  libs = %s -lrapidcheck\n" % (h["name"], " ".join(objs), variant_dir("fuzz"), libs))
         else:
             L.append("build %s: link_native %s gsched_stub.o | %s/libgalois/libgalois_shmem.a\n  libs = %s\n" % (h["name"], " ".join(objs), variant_dir("native"), libs))
     txt = "".join(L)
